@@ -170,7 +170,7 @@ def C01_e2e_reencode_full : Prop :=
 For encoder output it follows from `C01_e2e_actual` value by value (the example below evaluates an instance); for arbitrary
 input it needs an invariant of `decodeField` over all byte strings (a decoded value is aligned with the base type it is
 returned under, its array-ness is what the size implies) that the decoder-API lemma layer (C03: safety only) does not
-provide yet. At the value layer it holds for every numeric base type and ANY bytes (`C06_unmarshal_reencode_partial`: what
+provide yet. At the value layer it holds for every base type and ANY bytes (`C06_unmarshal_reencode`: what
 `UnmarshalValue` returned re-marshals and reads back as itself). The one class that refuted it on the pinned tree — a
 profile-bool ARRAY field holding bytes other than 0 / 1 / 255, finding KF-C01-boolarr — was repaired in /repo 5da5106
 (`C01_e2e_reencode_boolarr_roundtrip`); no refuting class is known. -/
